@@ -86,7 +86,15 @@ func cmdFn(args []string) {
 	var results []*FuncResult
 	for _, k := range keys {
 		t0 := time.Now()
-		r := generate(P, P.contracts[k])
+		var r *FuncResult
+		switch {
+		case P.contracts[k].IsLua:
+			r = generateLua(P, P.contracts[k])
+		case P.contracts[k].IsLemma:
+			r = generateLemma(P, P.contracts[k])
+		default:
+			r = generate(P, P.contracts[k])
+		}
 		r.GenSecs = time.Since(t0).Seconds()
 		results = append(results, r)
 	}
